@@ -110,6 +110,37 @@ theorem estimate_inside_its_interval (a : List Rat) (ha : a ≠ []) :
     quantile_mono a (by norm_num) (by norm_num) (by norm_num) hl hm,
     quantile_mono a (by norm_num) (by norm_num) (by norm_num) hm hr⟩
 
+/-! ## what is reported as `fss_params[0]` (a defect of the unchanged tree)
+
+`get_fit_params` overwrites `params_0[0]` in place with the midpoint of the error-rate range when it
+is outside that range, and the bootstrap loop of `fit_fss_params` passes `params_opt` itself as
+`params_0`.  So the reported best-fit threshold is the optimiser's value only when that value lies
+inside the data range; otherwise it silently becomes the midpoint of the range (the other four
+parameters and the `rescaled_p` column keep the values of the discarded fit, and `fit_status` can
+still be 'success').  Replayed on the implementation by the oracle (known finding, class `planted`,
+check `fss-params-overwritten-by-range-midpoint`). -/
+
+theorem reported_threshold_is_fitted_iff (raw pmin pmax : Rat) (n : Nat) (hn : 0 < n)
+    (hmid : raw ≠ (pmin + pmax) / 2) :
+    reportedPth raw pmin pmax n = raw ↔ (pmin ≤ raw ∧ raw ≤ pmax) := by
+  unfold reportedPth
+  rw [if_neg (by omega)]
+  split_ifs with h
+  · simp [h]
+  · constructor
+    · intro h'; exact absurd h'.symm hmid
+    · intro h'; exact absurd h' h
+
+theorem reported_threshold_without_bootstrap (raw pmin pmax : Rat) :
+    reportedPth raw pmin pmax 0 = raw := by simp [reportedPth]
+
+/-- witness (numbers of the replayed data set, rounded): the optimiser returns p_th = -0.012 for
+    rates in [0.116347, 0.202323]; 0.159335 is reported -/
+theorem fss_params_overwritten_witness :
+    reportedPth (-12 / 1000) (116347 / 1000000) (202323 / 1000000) 100 = 159335 / 1000000 ∧
+    reportedPth (-12 / 1000) (116347 / 1000000) (202323 / 1000000) 100 ≠ -12 / 1000 := by
+  decide +kernel
+
 /-! ## `get_fit_status` -/
 
 /-- an entry all of whose numbers are finite -/
